@@ -19,7 +19,7 @@ use pushr::push::parser::PushParser;
 use pushr::push::stack::PushStack;
 use pushr::push::state::PushState;
 
-pub const SUITES: &[(&str, fn(&Sx) -> Sx)] = &[("parse", parse), ("parse.prim", prim)];
+pub const SUITES: &[(&str, fn(&Sx) -> Sx)] = &[("parse", parse), ("parse.prim", prim), ("parse.st", parse_st)];
 
 thread_local! {
     static ISET: InstructionSet = { let mut is = InstructionSet::new(); is.load(); is };
@@ -60,6 +60,26 @@ fn parse(c: &Sx) -> Sx {
         fill_items(&mut st.exec_stack, &c[3])?;
         ISET.with(|is| PushParser::parse_program(&mut st, is, &text));
         Some(Sx::L(vec![stack_items(&st.exec_stack), Sx::b(others_untouched(&st))]))
+    };
+    go().unwrap_or_else(Sx::bad)
+}
+
+/// Suite "parse.st": (profile libm text state (name ...)) -> the whole state after parse_program, with the
+/// extra names registered through InstructionSet::add AFTER load().
+fn parse_st(c: &Sx) -> Sx {
+    let go = || -> Option<Sx> {
+        let c = c.as_l()?;
+        if c.len() != 5 { return None; }
+        c[1].as_l()?;
+        let text = c[2].as_string()?;
+        let mut st = crate::conv::sx_to_state(&c[3])?;
+        let mut is = InstructionSet::new();
+        is.load();
+        for n in c[4].as_l()? {
+            is.add(n.as_string()?, pushr::push::instructions::Instruction::new(|_s, _c| {}));
+        }
+        PushParser::parse_program(&mut st, &is, &text);
+        Some(state_to_sx(&st))
     };
     go().unwrap_or_else(Sx::bad)
 }
